@@ -4,6 +4,7 @@ import (
 	"fmt"
 	"go/token"
 	"sort"
+	"strings"
 
 	"golang.org/x/tools/go/ssa"
 )
@@ -11,9 +12,10 @@ import (
 // ---------- C18.T3: loop progress ----------
 
 type loop struct {
-	head  *ssa.BasicBlock
-	body  map[*ssa.BasicBlock]bool
-	backs []*ssa.BasicBlock // sources of back edges
+	head        *ssa.BasicBlock
+	body        map[*ssa.BasicBlock]bool
+	backs       []*ssa.BasicBlock      // sources of back edges
+	constGlobal func(*ssa.Global) bool // set by the rule: g is written only by package initialisers
 }
 
 func naturalLoops(fn *ssa.Function) []*loop {
@@ -80,6 +82,12 @@ func (l *loop) invariant(v ssa.Value) bool {
 		if !l.body[x.Block()] {
 			return true
 		}
+		// a package-level variable that is only ever assigned by its initialiser, re-loaded inside the loop
+		if u, ok := v.(*ssa.UnOp); ok && u.Op == token.MUL && l.constGlobal != nil {
+			if g, ok := u.X.(*ssa.Global); ok && l.constGlobal(g) {
+				return true
+			}
+		}
 		// len(X)/cap(X) of an invariant value re-evaluated inside the loop
 		if call, ok := v.(*ssa.Call); ok {
 			if bi, ok := call.Call.Value.(*ssa.Builtin); ok && (bi.Name() == "len" || bi.Name() == "cap") {
@@ -103,6 +111,7 @@ func (c *Ctx) RuleLoopProgress(fns map[*ssa.Function]bool) {
 			continue
 		}
 		for li, l := range naturalLoops(fn) {
+			l.constGlobal = c.writtenOnlyByInit
 			construct := fmt.Sprintf("loop#%d", li)
 			why := c.loopTerminates(l)
 			pos := lastPos(l.head)
@@ -135,8 +144,11 @@ func (c *Ctx) loopTerminates(l *loop) string {
 			break
 		}
 		var inc *ssa.BinOp
+		var init ssa.Value
+		step := int64(0)
 		for i, e := range ph.Edges {
 			if !l.body[l.head.Preds[i]] {
+				init = e
 				continue
 			}
 			bo, ok := e.(*ssa.BinOp)
@@ -145,10 +157,18 @@ func (c *Ctx) loopTerminates(l *loop) string {
 				break
 			}
 			k, isK := constInt(bo.Y)
-			if bo.X != ssa.Value(ph) || !isK || !((bo.Op == token.ADD && k > 0) || (bo.Op == token.SUB && k < 0)) {
+			if bo.X != ssa.Value(ph) || !isK || k == 0 || (bo.Op != token.ADD && bo.Op != token.SUB) {
 				inc = nil
 				break
 			}
+			if bo.Op == token.SUB {
+				k = -k
+			}
+			if step != 0 && step != k {
+				inc = nil
+				break
+			}
+			step = k
 			inc = bo
 		}
 		if inc == nil {
@@ -166,14 +186,35 @@ func (c *Ctx) loopTerminates(l *loop) string {
 			if !ok {
 				continue
 			}
-			switch cmp.Op {
-			case token.LSS, token.LEQ, token.GTR, token.GEQ:
+			isCtr := func(v ssa.Value) bool { return v == ssa.Value(ph) || v == ssa.Value(inc) }
+			var bound ssa.Value
+			switch {
+			case isCtr(cmp.X) && l.invariant(cmp.Y):
+				bound = cmp.Y
+			case isCtr(cmp.Y) && l.invariant(cmp.X):
+				bound = cmp.X
 			default:
 				continue
 			}
-			isCtr := func(v ssa.Value) bool { return v == ssa.Value(ph) || v == ssa.Value(inc) }
-			if (isCtr(cmp.X) && l.invariant(cmp.Y) || isCtr(cmp.Y) && l.invariant(cmp.X)) && l.allBacksDominatedBy(b) {
-				return "counter with constant positive step compared against a loop-invariant bound on every iteration"
+			if !l.allBacksDominatedBy(b) {
+				continue
+			}
+			switch cmp.Op {
+			case token.LSS, token.LEQ, token.GTR, token.GEQ:
+				if step > 0 {
+					return "counter with constant positive step compared against a loop-invariant bound on every iteration"
+				}
+				return "counter with constant negative step compared against a loop-invariant bound on every iteration"
+			case token.NEQ, token.EQL:
+				// `i != n` with unit step: terminates when the start is on the right side of the bound
+				c0, okc := constInt(init)
+				if !okc || (step != 1 && step != -1) {
+					continue
+				}
+				blo, bhi, okb := boundRange(bound)
+				if okb && (step == 1 && c0 <= blo || step == -1 && c0 >= bhi) {
+					return "unit-step counter tested for (in)equality with a loop-invariant bound it starts on the near side of, on every iteration"
+				}
 			}
 		}
 	}
@@ -237,4 +278,79 @@ func tokenErrorLeaves(call *ssa.Call, l *loop) bool {
 		}
 	}
 	return false
+}
+
+// boundRange: a static range for a loop bound: a constant, or a length (>= 0).
+func boundRange(v ssa.Value) (lo, hi int64, ok bool) {
+	if k, isK := constInt(v); isK {
+		return k, k, true
+	}
+	if c, isCall := v.(*ssa.Call); isCall {
+		if bi, isB := c.Call.Value.(*ssa.Builtin); isB && (bi.Name() == "len" || bi.Name() == "cap") {
+			return 0, inf, true
+		}
+	}
+	return 0, 0, false
+}
+
+// writtenOnlyByInit: no function of the module other than a package initialiser stores to g (or takes its address
+// for anything but loads).
+func (c *Ctx) writtenOnlyByInit(g *ssa.Global) bool {
+	if c.constGlobals == nil {
+		c.constGlobals = map[*ssa.Global]bool{}
+		written := map[*ssa.Global]bool{}
+		for fn := range c.AllRepoFuncs() {
+			if fn.Name() == "init" || strings.HasPrefix(fn.Name(), "init#") {
+				continue
+			}
+			for _, b := range fn.Blocks {
+				for _, in := range b.Instrs {
+					for _, op := range in.Operands(nil) {
+						gg, ok := (*op).(*ssa.Global)
+						if !ok {
+							continue
+						}
+						if u, isLoad := in.(*ssa.UnOp); isLoad && u.Op == token.MUL {
+							continue
+						}
+						if v, isVal := in.(ssa.Value); isVal && addrOnlyLoaded(v, 0) {
+							continue // &g[i] / &g.f used only to load from
+						}
+						written[gg] = true // stored to, or its address escapes
+					}
+				}
+			}
+		}
+		c.writtenGlobals = written
+	}
+	return !c.writtenGlobals[g]
+}
+
+// addrOnlyLoaded: v is an element/field address whose every use is a load (or a further element/field address
+// with the same property).
+func addrOnlyLoaded(v ssa.Value, depth int) bool {
+	switch v.(type) {
+	case *ssa.IndexAddr, *ssa.FieldAddr:
+	default:
+		return false
+	}
+	if depth > 4 || v.Referrers() == nil {
+		return false
+	}
+	for _, r := range *v.Referrers() {
+		switch x := r.(type) {
+		case *ssa.UnOp:
+			if x.Op != token.MUL {
+				return false
+			}
+		case *ssa.DebugRef:
+		case *ssa.IndexAddr, *ssa.FieldAddr:
+			if !addrOnlyLoaded(x.(ssa.Value), depth+1) {
+				return false
+			}
+		default:
+			return false
+		}
+	}
+	return true
 }
